@@ -68,7 +68,7 @@ def balanced_kind(case):
         return ('mean', 0) if case['folds'] is None else ('none', 0)
     if m in ('correlation', 'poisson'):
         return ('single', 0) if (single and case['folds'] is None) else ('none', 0)
-    if case['folds'] is None:
+    if case['folds'] is None or case.get('nodesc'):
         return 'none', 0
     folds = sorted(set(case['folds']), key=str)
     if len(folds) < 2:
@@ -183,7 +183,9 @@ def _descriptor(values, kind):
 
 def _dataset(case, X):
     from rsatoolbox.data import Dataset
-    obs = {'cond': _descriptor(case['labels'], kind_of(case, 'cond'))}
+    obs = {}
+    if not case.get('nodesc'):
+        obs['cond'] = _descriptor(case['labels'], kind_of(case, 'cond'))
     if case['folds'] is not None:
         obs['fold'] = _descriptor(case['folds'], kind_of(case, 'fold'))
     return Dataset(X, obs_descriptors=obs)
@@ -210,7 +212,8 @@ def call_unbalanced(case, X, noise='case'):
         with warnings.catch_warnings():
             warnings.simplefilter('ignore')
             r = cu.calc_rdm_unbalanced(
-                _dataset(case, X), method=case['method'], descriptor='cond', noise=N,
+                _dataset(case, X), method=case['method'],
+                descriptor=None if case.get('nodesc') else 'cond', noise=N,
                 cv_descriptor='fold' if case['folds'] is not None else None,
                 prior_lambda=case['lam'], prior_weight=case['pw'], weighting=case['weighting'])
     except (ValueError, TypeError, AssertionError, IndexError, KeyError, AttributeError,
@@ -218,8 +221,41 @@ def call_unbalanced(case, X, noise='case'):
         return {'exc': type(exc).__name__}
     finally:
         cu.calc = orig
-    return {'labels': [_py(v) for v in r.pattern_descriptors['cond']],
+    return {'labels': [_py(v) for v in r.pattern_descriptors['index' if case.get('nodesc') else 'cond']],
             'rdm': [float(v) for v in r.dissimilarities[0]], 'buf': rec.get('buf')}
+
+
+def sub_cases(case):
+    """the datasets of a list input as single-dataset cases (first = the case itself)"""
+    out = [dict(case, extra=None)]
+    for e in case.get('extra') or []:
+        out.append(dict(case, vals=e['vals'], noise=e['noise'], extra=None, one=None))
+    return out
+
+
+def call_list(case):
+    """real calc_rdm_unbalanced on a *list* of datasets (noise: none / one matrix / a list)"""
+    from rsatoolbox.rdm import calc_unbalanced as cu
+    subs = sub_cases(case)
+    dss = [_dataset(c, _matrix(c)) for c in subs]
+    if case['noise'] is None:
+        N = None
+    elif case.get('noise_mode') == 'list':
+        N = [_noise(c) for c in subs]
+    else:
+        N = _noise(case)
+    try:
+        with warnings.catch_warnings():
+            warnings.simplefilter('ignore')
+            r = cu.calc_rdm_unbalanced(
+                dss, method=case['method'], descriptor=None if case.get('nodesc') else 'cond',
+                noise=N, cv_descriptor='fold' if case['folds'] is not None else None,
+                prior_lambda=case['lam'], prior_weight=case['pw'], weighting=case['weighting'])
+    except (ValueError, TypeError, AssertionError, IndexError, KeyError, AttributeError,
+            ZeroDivisionError, NotImplementedError) as exc:
+        return {'exc': type(exc).__name__}
+    return {'labels': [_py(v) for v in r.pattern_descriptors['index' if case.get('nodesc') else 'cond']],
+            'rows': [[float(v) for v in row] for row in r.dissimilarities]}
 
 
 def call_balanced(case):
@@ -228,14 +264,17 @@ def call_balanced(case):
         with warnings.catch_warnings():
             warnings.simplefilter('ignore')
             r = calc_rdm(_dataset(case, _matrix(case, 'float', 'C')), method=case['method'],
-                         descriptor='cond', noise=_noise(case),
+                         descriptor=None if case.get('nodesc') else 'cond', noise=_noise(case),
                          cv_descriptor='fold' if case['folds'] is not None else None,
                          prior_lambda=case['lam'], prior_weight=case['pw'])
     except (ValueError, TypeError, AssertionError, IndexError, KeyError, AttributeError,
             ZeroDivisionError, NotImplementedError) as exc:
         return {'exc': type(exc).__name__}
-    return as_map([_py(v) for v in r.pattern_descriptors['cond']],
-                  [float(v) for v in r.dissimilarities[0]])
+    if case.get('nodesc'):         # rows/columns are the observations in dataset order
+        labs = list(range(len(case['labels'])))
+    else:
+        labs = [_py(v) for v in r.pattern_descriptors['cond']]
+    return as_map(labs, [float(v) for v in r.dissimilarities[0]])
 
 
 def one_cv_codes(case, ia, ib):
@@ -288,6 +327,14 @@ def observe(case, full=False):
         if isinstance(o, dict):
             return {'exc': 'calc_one:' + o['exc']}
         r['one'] = o
+    r['multi'] = None
+    if case.get('extra'):
+        m = call_list(case)
+        if 'exc' in m:
+            return {'exc': 'list:' + m['exc']}
+        if m['labels'] != r['labels']:
+            return {'exc': 'list:labels'}
+        r['multi'] = m['rows']
     return r
 
 
@@ -464,7 +511,7 @@ def _fail(what, observed, expected, **feat):
     return {'what': what, 'observed': observed, 'expected': expected, 'features': feat}
 
 
-def oracle(case):
+def oracle(case, light=False):
     """None if the property holds for this case on the real code, else a finding"""
     base = call_unbalanced(case, _matrix(case))
     if 'exc' in base:
@@ -505,7 +552,51 @@ def oracle(case):
             return _fail('unbalanced estimator differs from calc_rdm (' + kind + ') ' + d,
                          as_map(base['labels'], base['rdm']), bal, violation='balanced',
                          signature='none')
-    # 4. a channel missing everywhere has no effect (same as deleting it / as adding one)
+    # 5. integer and float inputs, C- and Fortran-ordered arrays give the same result
+    for dtype, order in (('float', 'C'), ('float', 'F'), ('int', 'C'), ('int', 'F')):
+        if dtype == 'int' and (has_missing(case) or case['scale'] != 1):
+            continue
+        v = call_unbalanced(case, _matrix(case, dtype, order))
+        if 'exc' in v or vec_diff(v['rdm'], base['rdm'], 1e-12, 1e-12 + atol * 1e-3):
+            return _fail(f'result depends on dtype/memory layout ({dtype}, {order})',
+                         v.get('rdm', v), base['rdm'], violation='layout', signature='none')
+    # 5b. a list of datasets gives, row by row, what each dataset gives alone
+    if case.get('extra'):
+        subs = sub_cases(case)
+        for sc in subs[1:]:
+            o = oracle(sc, light=True)
+            if o:
+                o['what'] = 'dataset of a list input: ' + o['what']
+                return o
+        m = call_list(case)
+        singles = [base['rdm']] + [call_unbalanced(sc, _matrix(sc)).get('rdm') for sc in subs[1:]]
+        if 'exc' in m or m['labels'] != base['labels'] or len(m['rows']) != len(singles) or any(
+                s is None or vec_diff(row, s, 1e-12, 1e-12 + atol * 1e-3)
+                for row, s in zip(m['rows'], singles)):
+            return _fail('a list of datasets does not give the per-dataset results',
+                         m.get('rows', m), singles, violation='list-input', signature='none')
+    # 6. the single-pair helper agrees with the full computation
+    if case.get('one') and base['buf'] is not None:
+        a, b = case['one']
+        if a != b or crossval_of(case):
+            o = call_one(case)
+            ia, ib = sorted([uniq.index(a), uniq.index(b)])
+            n = len(uniq)
+            k = ia if ia == ib else n + sum(n - 1 - r for r in range(ia)) + (ib - ia - 1)
+            if isinstance(o, dict) or not _close(o[0], base['buf'][k], 1e-9, atol):
+                return _fail('calc_one_similarity differs from the entry of the full computation',
+                             o, base['buf'][k], violation='single-pair', signature='none')
+            # its second result: the summed weight of the admissible ordered pairs
+            wsum = _one_weight(case, a, b)
+            if not _close(o[1], wsum, 1e-9, 1e-9):
+                return _fail('calc_one_similarity reports a weight that is not the summed weight '
+                             'of the admissible observation pairs', o[1], wsum,
+                             violation='single-pair', signature='none')
+    # 7. a channel missing everywhere has no effect (same as deleting it / as adding one).
+    #    Last, because for correlation / mahalanobis the added channel always runs into a known
+    #    compiled-kernel finding, which must not hide the checks above.
+    if light:
+        return None
     P = len(case['vals'][0])
     whole = [c for c in range(P) if all(row[c] is None for row in case['vals'])]
     keep = [c for c in range(P) if c not in whole]
@@ -550,31 +641,6 @@ def oracle(case):
                 return _fail(f'an all-missing channel ({how}) changes the result',
                              v.get('rdm', v), base['rdm'], violation='missing-everywhere',
                              signature='none', variant=how)
-    # 5. integer and float inputs, C- and Fortran-ordered arrays give the same result
-    for dtype, order in (('float', 'C'), ('float', 'F'), ('int', 'C'), ('int', 'F')):
-        if dtype == 'int' and (has_missing(case) or case['scale'] != 1):
-            continue
-        v = call_unbalanced(case, _matrix(case, dtype, order))
-        if 'exc' in v or vec_diff(v['rdm'], base['rdm'], 1e-12, 1e-12 + atol * 1e-3):
-            return _fail(f'result depends on dtype/memory layout ({dtype}, {order})',
-                         v.get('rdm', v), base['rdm'], violation='layout', signature='none')
-    # 6. the single-pair helper agrees with the full computation
-    if case.get('one') and base['buf'] is not None:
-        a, b = case['one']
-        if a != b or crossval_of(case):
-            o = call_one(case)
-            ia, ib = sorted([uniq.index(a), uniq.index(b)])
-            n = len(uniq)
-            k = ia if ia == ib else n + sum(n - 1 - r for r in range(ia)) + (ib - ia - 1)
-            if isinstance(o, dict) or not _close(o[0], base['buf'][k], 1e-9, atol):
-                return _fail('calc_one_similarity differs from the entry of the full computation',
-                             o, base['buf'][k], violation='single-pair', signature='none')
-            # its second result: the summed weight of the admissible ordered pairs
-            wsum = _one_weight(case, a, b)
-            if not _close(o[1], wsum, 1e-9, 1e-9):
-                return _fail('calc_one_similarity reports a weight that is not the summed weight '
-                             'of the admissible observation pairs', o[1], wsum,
-                             violation='single-pair', signature='none')
     return None
 
 
